@@ -5,7 +5,7 @@
    parent and up); is_anc is reachability along parent links (C26_ancestry). *)
 From Coq Require Import NArith List Bool Arith.
 From Common Require Import Outcome.
-From C26 Require Import Model Proofs.
+From C26 Require Import Model Proofs ModelSkip ProofsSkip.
 Import ListNotations.
 Local Open Scope N_scope.
 
@@ -34,16 +34,7 @@ Theorem C26_own_fork : forall s e h l d, wf (e_tree s) = true -> valid_hdr (e_tr
   get_epoch_data fixed (enough_fuel (e_tree s)) s e h = Ok l -> In d l ->
   (e = 0 /\ d = genesis_id) \/ alookup (dbe s) e = Some d \/
   exists entries b, alookup (ned s) e = Some entries /\ In (b, d) entries /\ on_chain (e_tree s) h b = true.
-Proof.
-  intros s e h l d W V H Hd. pose proof (epoch_data_spec s e h W V) as S.
-  unfold spec_epoch_data in S. destruct (e =? 0) eqn:E0.
-  - rewrite S in H. injection H as <-. destruct Hd as [<-|[]]. left. apply N.eqb_eq in E0. auto.
-  - destruct (alookup (dbe s) e) as [d0|] eqn:D.
-    + rewrite S in H. injection H as <-. destruct Hd as [<-|[]]. right. left. reflexivity.
-    + destruct (announced (e_tree s) (ned s) e h) as [|x r] eqn:A.
-      * destruct S as [S|S]; rewrite S in H; discriminate.
-      * rewrite S in H. injection H as <-. right. right. apply announced_own_fork. rewrite A. exact Hd.
-Qed.
+Proof. exact own_fork. Qed.
 Print Assumptions C26_own_fork.
 
 (* prompt failure: nothing persisted and nothing announced on the own ancestry for a non-zero
@@ -51,11 +42,7 @@ Print Assumptions C26_own_fork.
 Theorem C26_prompt_failure : forall s e h, wf (e_tree s) = true -> valid_hdr (e_tree s) h = true ->
   e <> 0 -> alookup (dbe s) e = None -> announced (e_tree s) (ned s) e h = [] ->
   exists c, get_epoch_data fixed (enough_fuel (e_tree s)) s e h = Err c.
-Proof.
-  intros s e h W V E D A. pose proof (epoch_data_spec s e h W V) as S.
-  unfold spec_epoch_data in S. apply N.eqb_neq in E. rewrite E, D, A in S.
-  destruct S as [S|S]; rewrite S; eauto.
-Qed.
+Proof. exact prompt_failure. Qed.
 Print Assumptions C26_prompt_failure.
 
 (* completeness: a block of the own ancestry announced d for epoch e (nothing persisted) =>
@@ -64,20 +51,14 @@ Theorem C26_complete : forall s e h entries b d, wf (e_tree s) = true -> valid_h
   e <> 0 -> alookup (dbe s) e = None ->
   alookup (ned s) e = Some entries -> In (b, d) entries -> on_chain (e_tree s) h b = true ->
   exists l, get_epoch_data fixed (enough_fuel (e_tree s)) s e h = Ok l /\ In d l.
-Proof.
-  intros s e h entries b d W V E D L I C. pose proof (epoch_data_spec s e h W V) as S.
-  pose proof (announced_complete (e_tree s) (ned s) e h entries b d L I C) as A.
-  unfold spec_epoch_data in S. apply N.eqb_neq in E. rewrite E, D in S.
-  destruct (announced (e_tree s) (ned s) e h) as [|x r]; [destruct A|].
-  exists (x :: r). auto.
-Qed.
+Proof. exact epoch_complete. Qed.
 Print Assumptions C26_complete.
 
 (* GetConfigData: always succeeds, with the latest configuration at or before the epoch that is
    persisted or announced on the header's own ancestry, else the genesis configuration *)
 Theorem C26_config : forall s e h, wf (e_tree s) = true -> valid_hdr (e_tree s) h = true ->
   get_config fixed (enough_fuel (e_tree s)) s e h = Ok (spec_config s e h).
-Proof. intros. unfold get_config, spec_config. apply config_loop_spec; assumption. Qed.
+Proof. exact config_spec. Qed.
 Print Assumptions C26_config.
 
 Theorem C26_config_latest_own_fork : forall s h k d, In d (spec_config_n s k h) ->
@@ -142,3 +123,87 @@ Theorem C26_config_fallback_prefix_refuted :
   get_config fixed (enough_fuel cfg_tree) cfg_state 2 (Imp 5) = Ok [8].
 Proof. vm_compute. repeat split; reflexivity. Qed.
 Print Assumptions C26_config_fallback_prefix_refuted.
+
+(* ---------------- second-round additions ---------------- *)
+
+(* exact error class of a failing GetEpochDataRaw: ErrEpochNotInMemory when nothing at all was
+   announced for the epoch, errHashNotInMemory when only other forks announced *)
+Theorem C26_epoch_data_error_class : forall s e h, wf (e_tree s) = true -> valid_hdr (e_tree s) h = true ->
+  spec_epoch_data s e h = None ->
+  get_epoch_data fixed (enough_fuel (e_tree s)) s e h =
+  Err (match alookup (ned s) e with None => e_epoch_not_in_memory | Some _ => e_hash_not_in_memory end).
+Proof. exact epoch_data_error_class. Qed.
+Print Assumptions C26_epoch_data_error_class.
+
+(* Skipped epochs.  GetSkippedEpochDataRaw(skipped, current, header) answers exactly like
+   GetEpochDataRaw(skipped, header) (hence C26_epoch_data / C26_own_fork / C26_prompt_failure
+   apply to it: own ancestry or a prompt error) ... *)
+Theorem C26_skipped_epoch_data : forall s se ce h, wf (e_tree s) = true -> valid_hdr (e_tree s) h = true ->
+  answers (get_skipped_epoch_data fixed (enough_fuel (e_tree s)) s se ce h) =
+  get_epoch_data fixed (enough_fuel (e_tree s)) s se h.
+Proof. exact skipped_epoch_data_spec. Qed.
+Print Assumptions C26_skipped_epoch_data.
+
+Theorem C26_skipped_own_fork : forall s se ce h l d s', wf (e_tree s) = true -> valid_hdr (e_tree s) h = true ->
+  get_skipped_epoch_data fixed (enough_fuel (e_tree s)) s se ce h = Ok l -> In (d, s') l ->
+  (se = 0 /\ d = genesis_id) \/ alookup (dbe s) se = Some d \/
+  exists entries b, alookup (ned s) se = Some entries /\ In (b, d) entries /\ on_chain (e_tree s) h b = true.
+Proof. exact skipped_own_fork. Qed.
+Print Assumptions C26_skipped_own_fork.
+
+(* ... and after it answered d from the in-memory map, the re-keyed definition is what
+   GetEpochDataRaw(current, same header) finds (nothing persisted for either epoch) *)
+Theorem C26_skipped_then_current : forall s se ce h l d s', wf (e_tree s) = true -> valid_hdr (e_tree s) h = true ->
+  se <> 0 -> ce <> 0 -> alookup (dbe s) se = None -> alookup (dbe s) ce = None ->
+  get_skipped_epoch_data fixed (enough_fuel (e_tree s)) s se ce h = Ok l -> In (d, s') l ->
+  exists l', get_epoch_data fixed (enough_fuel (e_tree s')) s' ce h = Ok l' /\ In d l'.
+Proof. exact skipped_then_current. Qed.
+Print Assumptions C26_skipped_then_current.
+
+(* GetSkippedConfigData after fixes/C26-skipped-config-fallback.patch: always succeeds with the
+   latest configuration at or before the skipped epoch that is persisted or announced on the
+   header's own ancestry, else genesis (C26_config_latest_own_fork characterises spec_config) *)
+Theorem C26_skipped_config : forall s se ce h, wf (e_tree s) = true -> valid_hdr (e_tree s) h = true ->
+  answers (get_skipped_config fixed true (enough_fuel (e_tree s)) s se ce h) = Ok (spec_config s se h).
+Proof. exact skipped_config_spec. Qed.
+Print Assumptions C26_skipped_config.
+
+(* the pinned GetSkippedConfigData (fallback only on ErrEpochNotInMemory): with the skipped
+   epoch's configuration announced on another fork only it errors, although the own fork has an
+   earlier configuration (corpus case `... C,2.3,i5`) *)
+Theorem C26_skipped_config_prefix_refuted :
+  spec_config cfg_state 2 (Imp 5) = [8] /\
+  answers (get_skipped_config fixed false (enough_fuel cfg_tree) cfg_state 2 3 (Imp 5)) = Err e_hash_not_in_memory /\
+  answers (get_skipped_config fixed true (enough_fuel cfg_tree) cfg_state 2 3 (Imp 5)) = Ok [8].
+Proof. vm_compute. repeat split; reflexivity. Qed.
+Print Assumptions C26_skipped_config_prefix_refuted.
+
+(* Restart (NewEpochState on the same database): as long as no skipped-epoch lookup re-keyed an
+   in-memory entry, the persisted copies equal the maps in EVERY state reached by announcements
+   and restarts, so a restart changes nothing: every lookup theorem above holds after it. *)
+Theorem C26_restart_identity : forall x, synced x -> x_restart x = x.
+Proof. exact restart_identity. Qed.
+Print Assumptions C26_restart_identity.
+
+Theorem C26_synced_reachable : forall t elen d1 d2,
+  synced (x_init t elen d1 d2) /\
+  (forall x b d, synced x -> synced (x_announce_epoch x b d) /\ synced (x_announce_config x b d)) /\
+  (forall x, synced (x_restart x)).
+Proof.
+  intros. split; [apply synced_init|]. split.
+  - intros x b d H. split; [apply synced_announce_epoch | apply synced_announce_config]; exact H.
+  - apply synced_restart.
+Qed.
+Print Assumptions C26_synced_reachable.
+
+(* non-vacuity: two forks announce for epoch 1; a skipped lookup from block 2 re-keys fork A's
+   entry to epoch 2 and leaves fork B's entry where it was *)
+Example C26_skipped_nonvacuous :
+  match get_skipped_epoch_data fixed (enough_fuel ex_tree) ex_state 1 2 (Imp 2) with
+  | Ok [(d, s')] => d = 5 /\ ned s' = [(1, [(3%nat, 6)]); (2, [(1%nat, 5)])] /\
+                    get_epoch_data fixed (enough_fuel ex_tree) s' 2 (Imp 2) = Ok [5] /\
+                    get_epoch_data fixed (enough_fuel ex_tree) s' 1 (Imp 4) = Ok [6] /\
+                    get_epoch_data fixed (enough_fuel ex_tree) s' 1 (Imp 2) = Err e_hash_not_in_memory
+  | _ => False
+  end.
+Proof. vm_compute. repeat split; reflexivity. Qed.
